@@ -8,11 +8,22 @@ from common import finish
 
 def run_numeric(ctx, sim, sim_num_quick, sim_num_thorough, exhaustive=None, e_sample_quick=None,
                 cse_settings=(False, True), rule="", scope="", assumptions=None, key_prefix="", force_ekf=False,
-                post=None, timeout=120, repo_tests=False, corpus=None):
+                post=None, timeout=120, repo_tests=False, corpus=None, extra_sims=None):
     quick = ctx.quick
     scns, stats = scen.generate(ctx, exhaustive, sim, sim_num=(sim_num_quick if quick else sim_num_thorough),
                                 sim_depth=90, e_sample=(e_sample_quick if quick else None))
     assumptions = assumptions or []
+    for extra_sim, extra_num in (extra_sims or []):       # further configurations of the same specification (focused shapes)
+        if scns is None:
+            break
+        more, st2 = scen.generate(ctx, None, extra_sim, sim_num=(extra_num if quick else extra_num * 10), sim_depth=90)
+        if more is None:
+            scns, stats = None, st2
+            break
+        scns += more
+        stats["states"] += st2.get("states", 0)
+        stats["transitions"] += st2.get("transitions", 0)
+        stats["tlc_runs"] = stats.get("tlc_runs", []) + st2.get("tlc_runs", [])
     for path in (corpus or []):          # fixed inputs: the failing input of every recorded finding is exercised on every run
         if scns is not None:
             c = json.load(open(path))["scenario"]
